@@ -17,6 +17,8 @@ Of(U, a) == {u \in U : u[1] = a}
 SegsOf(U) == {<<u[1], u[2], u[3]>> : u \in U}
 TotalDur(U) == FoldSet(LAMBDA u, acc : acc + (u[3] - u[2]), 0, U)
 Abs(x) == IF x < 0 THEN -x ELSE x
+\* numbers of units are counted on the logged SEQUENCES (two distinct tiny units may coincide on the fixed-point grid)
+CountOf(seq, a) == Cardinality({k \in 1..Len(seq) : seq[k][1] = a})
 AnnsAfter == ToSet(R.anns_after)
 AnnsBefore == ToSet(R.anns_before)
 
@@ -29,14 +31,17 @@ ObsMagnitudeZero == R.magzero = 1 => \A a \in AnnsAfter : {<<u[2], u[3], u[4]>> 
 \* confinement
 IsOp(o) == R.op = o
 ObsCatKeepsSegments == IsOp("cat_shuffle") => SegsOf(After) = SegsOf(Before)
-ObsSplitDuration == IsOp("split") => \A a \in AnnsBefore : Abs(TotalDur(Of(After, a)) - TotalDur(Of(Before, a))) <= 2 + R.nsplits
+SeqDur(seq, a) == FoldSet(LAMBDA k, acc : acc + (seq[k][3] - seq[k][2]), 0, {k \in 1..Len(seq) : seq[k][1] = a})
+ObsSplitDuration == IsOp("split") => \A a \in AnnsBefore : Abs(SeqDur(R.after, a) - SeqDur(R.before, a)) <= 2 + 2 * R.nsplits
 ObsSplitCount == IsOp("split") => \A a \in AnnsBefore :
-                     \/ Cardinality(Of(After, a)) = Cardinality(Of(Before, a)) + R.nsplits
-                     \/ R.fallbacks > 0 /\ Cardinality(Of(After, a)) <= Cardinality(Of(Before, a)) + R.nsplits   \* zero-length fallback: named branch
+                     \/ CountOf(R.after, a) = CountOf(R.before, a) + R.nsplits
+                     \/ /\ R.fallbacks > 0                                   \* zero-length fallback (a piece was refused): named branch
+                        /\ CountOf(R.after, a) <= CountOf(R.before, a) + R.nsplits
+                        /\ CountOf(R.after, a) + R.fallbacks >= CountOf(R.before, a) + R.nsplits
 ObsSplitInside == IsOp("split") => \A u \in After : \E v \in Before : v[1] = u[1] /\ v[4] = u[4] /\ v[2] <= u[2] /\ u[3] <= v[3]
 ObsFalseNegOnlyRemoves == IsOp("false_neg") => After \subseteq Before
 ObsFalsePosOnlyAdds == IsOp("false_pos") => Before \subseteq After
-ObsShiftKeepsCount == IsOp("shift") => \A a \in AnnsBefore : Cardinality(Of(After, a)) = Cardinality(Of(Before, a))
+ObsShiftKeepsCount == IsOp("shift") => \A a \in AnnsBefore : CountOf(R.after, a) = CountOf(R.before, a)
 ObsSameAnnotators == R.op # "corpus_shuffle" => R.anns_after = R.anns_before
 
 Init == tid \in 1..Len(Recs)
